@@ -167,13 +167,15 @@ CHECKS["C07"] = dict(
 CHECKS["C08"] = dict(
     text="Machine-checked proof (Coq): for EVERY attribute tree (any nesting, width, number of values; strings without double quote "
          "and backslash incl. empty, blanks, ; , { }; number tokens) the character-level model of DASParser applied to the model of "
-         "das()/build_attributes returns the tree; value lists and string values in isolation. Printer, parser and the executable model "
-         "of add_attributes (flat id, nested id, hand-back of leaves, NC_GLOBAL/DODS_EXTRA flattening, globals) are compared with "
+         "das()/build_attributes returns the tree; for every dataset tree (any depth and width, distinct names) add_attributes applied to "
+         "the DAS of the dataset gives every variable exactly its own attributes, and the text round trip composes with it "
+         "(served, parsed, re-attached). Printer, parser and the model of add_attributes (flat id, nested id, hand-back of leaves, "
+         "NC_GLOBAL/DODS_EXTRA flattening, globals) are compared with "
          "pydap on generated datasets, on (variable tree, attribute dict) pairs with opaque leaves and on reference-rendered "
          "foreign DAS; a real client (open_url on an in-process handler) is compared with the served attributes to six digits.",
-    note=TB + "Numbers are DAS tokens in the model: '%.6g' and ast.literal_eval are outside it (oracle only). add_attributes is modelled "
-              "and compared, its placement theorem is not proved (partial). ASCII; attribute names are identifiers.",
-    technique="Coq proof (character-level parser inverts the printer: induction over the nested attribute tree, regexp alternatives as total functions) + vm_compute correspondence incl. the placement algorithm + end-to-end client oracle",
+    note=TB + "Numbers are DAS tokens in the model: '%.6g' and ast.literal_eval are outside it (oracle only). The placement theorem covers served DAS without NC_GLOBAL / "
+              "DODS_EXTRA containers (their flattening and foreign flat-id layouts are compared, not proved). ASCII; attribute names are identifiers.",
+    technique="Coq proof (character-level parser inverts the printer: induction over the nested attribute tree, regexp alternatives as total functions; placement: reverse-walk over a nested dictionary with path lookup / removal lemmas) + vm_compute correspondence incl. the placement algorithm + end-to-end client oracle",
     design="7/C08")
 
 CHECKS["C11"] = dict(
